@@ -166,6 +166,38 @@ func (c *Ctx) ord11() {
 			}
 		}
 	}
+	if ra := c.Fn("ORD-11", "(*BigMessage).ReadAll"); ra != nil {
+		w := c.acc("ORD-11", ra, "ReadAll-reads-only-while-it-is-the-parked-message,-and-unparks-it")
+		for _, p := range c.Paths("ORD-11", ra) {
+			for i := range p.Events {
+				e := &p.Events[i]
+				if !isBlockingIO(e) {
+					continue
+				}
+				same, cleared := false, false
+				for _, cm := range assumed(p, 0, i) {
+					for _, k := range []cmp{cm, cm.swapped()} {
+						if roleKey(k.X) == "Client.bigMessage" && k.Op == token.EQL {
+							if _, isParam := stripConv(k.Y).(*ssa.Parameter); isParam {
+								same = true
+							}
+						}
+					}
+				}
+				for j := 0; j < i; j++ {
+					if st := &p.Events[j]; st.Kind == pathx.KStore && pathx.RoleOfAddr(st.Addr).Key() == "Client.bigMessage" && pathx.IsNilConst(st.Val) {
+						cleared = true
+					}
+				}
+				if same && cleared {
+					w.pass()
+				} else {
+					w.fail(p, i, "ReadAll reads from the connection without (being the parked message: %v, having unparked itself: %v): a stale BigMessage consumes bytes of later packets, or its payload is skipped a second time by the next ReadSlices", same, cleared)
+				}
+			}
+		}
+		w.done(1, "the read lies behind c.bigMessage == e and c.bigMessage = nil")
+	}
 	entry.done(1, "bigMessage is nil, or its Size was discarded and the field cleared, before the first stream operation")
 	skip.done(1, "no path discards len(c.peek) twice without a new peek")
 	stale.done(1, "every peekPacket call starts from c.peek == nil")
